@@ -6,6 +6,7 @@ import (
 	"fmt"
 	"math/bits"
 	"runtime"
+	"sort"
 	"sync"
 	"sync/atomic"
 	"testing"
@@ -325,23 +326,203 @@ func c35Bijection(c *vk.Ctx, mask uint32) {
 	c.Add("roundtrips", evals)
 }
 
+// ---- history-based pass: several translation calls on ONE manager --------------------------------
+
+// reference translations (plain bit arithmetic, no state)
+func c35RefMark(mask uint32, n uint64) (uint32, bool) {
+	var mark uint32
+	i := uint(0)
+	for sh := uint(0); sh < 32; sh++ {
+		if mask&(1<<sh) != 0 {
+			if n&(1<<i) != 0 {
+				mark |= 1 << sh
+			}
+			i++
+		}
+	}
+	return mark, n>>i == 0
+}
+
+func c35RefNumber(mask, mark uint32) (uint64, bool) {
+	if mark&^mask != 0 {
+		return 0, false
+	}
+	var n uint64
+	i := uint(0)
+	for sh := uint(0); sh < 32; sh++ {
+		if mask&(1<<sh) != 0 {
+			if mark&(1<<sh) != 0 {
+				n |= 1 << i
+			}
+			i++
+		}
+	}
+	return n, true
+}
+
+type c35Call struct {
+	Kind string // n2m | m2n | alloc
+	N    uint64
+	M    uint32
+}
+
+func (k c35Call) String() string {
+	switch k.Kind {
+	case "n2m":
+		return fmt.Sprintf("MapNumberToMark(%d)", k.N)
+	case "m2n":
+		return fmt.Sprintf("MapMarkToNumber(%#x)", k.M)
+	}
+	return "NextSingleBitMark()"
+}
+
+// c35CallAlphabet: numbers that fit (all of them for <=5 bits, boundary ones above), numbers that do NOT fit,
+// marks inside the mask (all sub-masks for <=5 bits, boundary ones and the marks of the chosen numbers above),
+// one mark with a foreign bit, and one allocation call.
+func c35CallAlphabet(mask uint32) []c35Call {
+	p := bits.OnesCount32(mask)
+	total := uint64(1) << uint(p)
+	nset := map[uint64]bool{}
+	mset := map[uint32]bool{}
+	if p <= 5 {
+		for n := uint64(0); n < total; n++ {
+			nset[n] = true
+		}
+		sub := uint32(0)
+		for {
+			mset[sub] = true
+			if sub == mask {
+				break
+			}
+			sub = (sub - mask) & mask
+		}
+	} else {
+		for _, n := range []uint64{0, 1, 2, total - 1, total - 2, total >> 1} {
+			nset[n] = true
+			mk, _ := c35RefMark(mask, n)
+			mset[mk] = true
+		}
+		mset[mask&-mask] = true
+		mset[mask&^(mask&-mask)] = true
+	}
+	if p < 32 {
+		// refused numbers; their low bits coincide with fitting numbers 0, 1, max and a middle one
+		for _, n := range []uint64{total, total + 1, 2*total - 1, total + total>>1, 3 * total} {
+			if n < 1<<32 {
+				nset[n] = true
+			}
+		}
+	}
+	var out []c35Call
+	var ns []uint64
+	for n := range nset {
+		ns = append(ns, n)
+	}
+	sort.Slice(ns, func(i, j int) bool { return ns[i] < ns[j] })
+	for _, n := range ns {
+		out = append(out, c35Call{Kind: "n2m", N: n})
+	}
+	var ms []uint32
+	for m := range mset {
+		ms = append(ms, m)
+	}
+	sort.Slice(ms, func(i, j int) bool { return ms[i] < ms[j] })
+	for _, m := range ms {
+		out = append(out, c35Call{Kind: "m2n", M: m})
+	}
+	for sh := uint(0); sh < 32; sh++ {
+		if mask&(1<<sh) == 0 {
+			out = append(out, c35Call{Kind: "m2n", M: mask&-mask | 1<<sh})
+			break
+		}
+	}
+	out = append(out, c35Call{Kind: "alloc"})
+	return out
+}
+
+// c35Histories runs every sequence of `length` calls on one manager and checks every answer that the statement
+// defines (numbers that fit, marks inside the mask) against the stateless reference; calls the statement is silent
+// about (numbers that do not fit) are executed for their side effects only.
+func c35Histories(c *vk.Ctx, mask uint32, length int) (seqs, calls int64) {
+	alpha := c35CallAlphabet(mask)
+	idx := make([]int, length)
+	reported := false
+	for {
+		m := NewMarkBitsManager(mask, "verif")
+		seqs++
+		for step, ai := range idx {
+			k := alpha[ai]
+			calls++
+			var msg, key string
+			switch k.Kind {
+			case "n2m":
+				got, err := m.MapNumberToMark(int(k.N))
+				want, fits := c35RefMark(mask, k.N)
+				if fits && (err != nil || got != want) {
+					key, msg = "history:number-to-mark", fmt.Sprintf("%v = %#x,%v want %#x", k, got, err, want)
+				} else if !fits && err == nil {
+					c.Outcome("refused-number accepted in some history")
+					if got&^mask != 0 {
+						key, msg = "history:mark-outside-mask", fmt.Sprintf("%v = %#x outside the mask", k, got)
+					}
+				}
+			case "m2n":
+				got, err := m.MapMarkToNumber(k.M)
+				want, inside := c35RefNumber(mask, k.M)
+				if inside && (err != nil || got < 0 || uint64(got) != want) {
+					key, msg = "history:mark-to-number", fmt.Sprintf("%v = %d,%v want %d", k, got, err, want)
+				} else if !inside && err == nil {
+					key, msg = "history:foreign-mark-accepted", fmt.Sprintf("%v = %d accepted", k, got)
+				}
+			case "alloc":
+				_, _ = m.NextSingleBitMark()
+			}
+			if key != "" && !reported {
+				reported = true
+				var h []string
+				for _, j := range idx[:step+1] {
+					h = append(h, alpha[j].String())
+				}
+				c.Violation("C35:"+key, map[string]any{"mask": mask, "calls": h, "msg": fmt.Sprintf("mask %#x after %v: %s", mask, h[:step], msg)})
+			}
+		}
+		// next sequence
+		i := length - 1
+		for ; i >= 0; i-- {
+			idx[i]++
+			if idx[i] < len(alpha) {
+				break
+			}
+			idx[i] = 0
+		}
+		if i < 0 {
+			break
+		}
+	}
+	return
+}
+
 func TestVerif_C35(t *testing.T) {
 	logrus.SetLevel(logrus.PanicLevel)
 	vk.Run(t, "C35", func(c *vk.Ctx) {
 		maxBits := 12
 		c.Rule(fmt.Sprintf("configurations = masks with <=%d bits in a 12-bit window at shifts 0/8/20 + 11 structured masks; per mask: states = (numBitsAllocated, numFreeBits, union of bits handed out, failed-attempt count<=2), "+
 			"transitions = one real NextSingleBitMark / NextBlockBitsMark(0,1,2,3,5,33) call replayed on a fresh manager, explored to fixpoint; plus one transition per number->mark->number round trip (all numbers < 2^bits; "+
-			"for masks wider than 16 bits in the quick tier: numbers with <=2 bits set or clear); non-trivial = >=2 bits handed out or an allocation attempt on an exhausted mask", maxBits))
+			"for masks wider than 16 bits in the quick tier: numbers with <=2 bits set or clear); plus, per mask, every sequence of 2 (3 for masks of <=3 bits; thorough: 3 except 4-5 bits) calls of MapNumberToMark / MapMarkToNumber / NextSingleBitMark on ONE manager over all numbers+sub-masks (<=5 bits) or boundary ones, incl. numbers that do not fit and a foreign mark, every defined answer compared with a stateless reference; non-trivial = >=2 bits handed out or an allocation attempt on an exhausted mask", maxBits))
 		if rf := c.ReplayFile(); rf != "" {
 			var d struct {
 				History []string
+				Calls   []string
 				Mask    uint32
 			}
 			if err := vk.LoadReplay(rf, &d); err != nil {
 				c.ToolError(err.Error())
 				return
 			}
-			if d.History != nil {
+			if d.Calls != nil {
+				// call-history violations: re-enumerate the histories of that length for that mask
+				c35Histories(c, d.Mask, len(d.Calls))
+			} else if d.History != nil {
 				var h []c35Ev
 				for _, x := range d.History {
 					var e c35Ev
@@ -406,5 +587,37 @@ func TestVerif_C35(t *testing.T) {
 			c35Bijection(c, m)
 		}
 		fmt.Printf("enum markbits round trips: %d evaluations\n", c.Get("roundtrips"))
+		// history-based pass: all call sequences of length 3 (masks <= 3 bits, and every mask in the thorough tier) / 2 (others)
+		var hnext int64 = -1
+		var hseq, hcalls int64
+		var hwg sync.WaitGroup
+		for w := 0; w < 6; w++ {
+			hwg.Add(1)
+			go func() {
+				defer hwg.Done()
+				for {
+					i := int(atomic.AddInt64(&hnext, 1))
+					if i >= len(masks) {
+						return
+					}
+					if c.Expired() {
+						c.Capped("deadline during call-history enumeration")
+						return
+					}
+					l := 2
+					if p := bits.OnesCount32(masks[i]); p <= 3 || (c.Thorough() && p != 4 && p != 5) {
+						l = 3
+					}
+					sq, cl := c35Histories(c, masks[i], l)
+					atomic.AddInt64(&hseq, sq)
+					atomic.AddInt64(&hcalls, cl)
+				}
+			}()
+		}
+		hwg.Wait()
+		c.Add("states", hseq)
+		c.Add("transitions", hcalls)
+		c.Extra("call_histories", hseq)
+		fmt.Printf("enum markbits call histories: %d sequences, %d calls\n", hseq, hcalls)
 	})
 }
